@@ -295,6 +295,44 @@ func typedUnits(which string) []engine.Unit {
 			}
 			return lex(a, b, ord[int])
 		}}, which)
+		// windows of ONE backing array: equal-content collections that share storage, prefixes of each other
+		// that start at the same address, overlapping windows ("does not depend on which of two equal-content
+		// collections is passed" - nor on whether they are views of the same memory)
+		base := []int{1, 2, 1, 2, 3}
+		var ws [][]int
+		for i := 0; i <= len(base); i++ {
+			for j := i; j <= len(base) && j <= i+3; j++ {
+				ws = append(ws, base[i:j])
+			}
+		}
+		ws = append(ws, base[:2:2], []int{1, 2}, []int{1, 2, 1})
+		laws(r, uni[[]int]{name: "[]int windows of one backing array", vals: ws, ref: func(a, b []int) age.Rank { return lex(a, b, ord[int]) }}, which)
+		fbase := []float64{0.5, 1.5, 0.5, 1.5}
+		var fw [][]float64
+		for i := 0; i <= len(fbase); i++ {
+			for j := i; j <= len(fbase); j++ {
+				fw = append(fw, fbase[i:j])
+			}
+		}
+		laws(r, uni[[]float64]{name: "[]float64 windows of one backing array", vals: fw, ref: func(a, b []float64) age.Rank { return lex(a, b, ord[float64]) }}, which)
+		sbase := []string{"a", "b", "a", "b"}
+		var sw [][]string
+		for i := 0; i <= len(sbase); i++ {
+			for j := i; j <= len(sbase); j++ {
+				sw = append(sw, sbase[i:j])
+			}
+		}
+		laws(r, uni[[]string]{name: "[]string windows of one backing array", vals: sw, ref: func(a, b []string) age.Rank { return lex(a, b, ord[string]) }}, which)
+		// the same windows one level down: rows of a [][]int that alias each other
+		var nested [][][]int
+		for _, a := range [][]int{base[:1], base[:2], base[2:4], base[:3]} {
+			for _, b := range [][]int{base[:0], base[:2], base[:3]} {
+				nested = append(nested, [][]int{a, b})
+			}
+		}
+		laws(r, uni[[][]int]{name: "[][]int with rows aliasing one backing array", vals: nested, ref: func(a, b [][]int) age.Rank {
+			return lex(a, b, func(x, y []int) age.Rank { return lex(x, y, ord[int]) })
+		}}, which)
 		nan := math.NaN()
 		fs := [][]float64{nil, {}, {1}, {nan}, {1, nan}, {nan, 1}, {math.Inf(1)}, {math.Copysign(0, -1)}, {0}, {1, 2}, {nan}, {1, nan}, {2.5, nan, nan}}
 		rankF := func(a, b float64) age.Rank {
@@ -712,11 +750,13 @@ func history(which string) func(r *engine.Rec) {
 		for name, mk := range cyclicValues() {
 			mk := mk
 			pairs = append(pairs, pair{"cyclic: " + name, mk, mk})
+			pairs = append(pairs, pair{"cyclic twins: " + name, mk, mk})
 		}
 		run := func(coll age.CollatorLike[any], op histOp) (string, rt.Outcome) {
 			p := pairs[op.P]
 			a, b := p.a(), p.b()
-			if strings.HasPrefix(p.name, "cyclic") {
+			if strings.HasPrefix(p.name, "cyclic: ") {
+				// the same object on both sides ("cyclic twins" are two separately built values of the same shape)
 				b = a
 				if strings.Contains(p.name, "go slice") || strings.Contains(p.name, "go map") {
 					b = p.b()
@@ -757,7 +797,10 @@ func history(which string) func(r *engine.Rec) {
 					case o.Fuel:
 						r.Violation("self-containing value: "+k+"Values does not terminate", pairs[p].name, c)
 					case !o.Panicked:
-						// comparing a cyclic value with itself may legitimately finish if identity short-circuits; not required
+						// the statement is explicit: the call "ends with the documented depth-limit panic" - also when
+						// both arguments are the same object (a shortcut that answers Equal for identical arguments
+						// would make the outcome depend on whether the caller holds one object or two equal ones)
+						r.Violation("self-containing value: "+k+"Values returns instead of ending with the documented depth-limit panic", pairs[p].name+": returned "+res, c)
 					case !strings.Contains(o.Value, "maximum traversal depth was exceeded"):
 						r.Violation("self-containing value: "+k+"Values ends with another panic than the documented depth-limit panic", pairs[p].name+": "+o.Value, c)
 					}
